@@ -73,14 +73,26 @@ def snapJson (s : Snap) : Json :=
   Json.mkObj [("inv", match s.inv with | some l => idsToJson (sortIds l) | none => Json.null),
               ("objs", Json.arr ((sortLives s.objs).map liveJson).toArray)]
 
+/-- which dependent of an object is looked at first depends on the iteration order of a Go map (the stored inventory is read
+from a map), so when several dependents block for different reasons the reported reason is not determined: the two skip
+classes are compared as one -/
+def canonReason (r : String) : String := if r = "dep-blocked" || r = "dep-mismatch" then "dep-skip" else r
+
 def evJson : Ev → Json
   | .init gs => Json.arr #["init", Json.arr (gs.map (fun (n, a, ids) => Json.arr #[n, a, idsToJson ids])).toArray]
   | .error k => Json.arr #["error", k]
   | .group n a st => Json.arr #["group", n, a, st]
-  | .op k g id st r => Json.arr #[k, g, idToJson id, st, r]
+  | .op k g id st r => Json.arr #[k, g, idToJson id, st, canonReason r]
   | .wait g id st => Json.arr #["wait", g, idToJson id, st]
   | .status id st => Json.arr #["status", idToJson id, st]
   | .validation ids k => Json.arr #["validation", idsToJson (sortIds ids), k]
+
+def canonEvents (j : Json) : Json :=
+  match j with
+  | Json.arr es => Json.arr (es.map fun e => match e with
+      | Json.arr a => if a.size = 5 then (match a[4]! with | Json.str r => Json.arr (a.set! 4 (Json.str (canonReason r))) | _ => e) else e
+      | _ => e)
+  | _ => j
 
 def mutJson (m : MutRec) : Json :=
   Json.arr #[m.verb, idToJson m.id, m.dry, m.precond, m.prop, m.result, m.rejected, m.evIdx, snapJson m.snap]
@@ -100,6 +112,7 @@ def canonSnap (j : Json) : Json :=
 
 def canonRun (j : Json) : Json :=
   let j := match jopt j "final" with | some f => j.setObjVal! "final" (canonSnap f) | none => j
+  let j := match jopt j "events" with | some es => j.setObjVal! "events" (canonEvents es) | none => j
   match jopt j "muts" with
   | some (Json.arr ms) =>
     j.setObjVal! "muts" (Json.arr (ms.map (fun m => match m with
